@@ -21,6 +21,10 @@ CHECKS = {
    text="TLC checks the SessionLifecycle design (issue / serve / refuse / delete / expiry over header classes none, live, deleted, never-issued) for stateful, stateless and session-disabled modes; every edge of the state graph - labelled with the admissible statuses and the required session header - is executed by a raw HTTP peer against a real server in each of 12 configurations (sequentially and as concurrent walks on one server), comparing status, Mcp-Session-Id, GetActiveSessions() and stream termination; the observation logs are validated by TLC against TraceSession (which re-uses the specification's actions).",
    note="Trusted: TLC, the raw peer. The entropy SOURCE of ids is not observable (format, length, uniqueness and positional diversity of issued ids are checked). The 1-hour expiry sweep is a TLC-only environment action. Where the statement is silent (status of notifications/responses in a live session, stateless DELETE) the specification admits every outcome.",
    technique="TLA+ model checking (TLC) + edge-cover walk of the state graph on the real server + TLC trace validation"),
+ "C05": dict(level="model_checking", design="DESIGN.md §5 C05",
+   text="TLC checks Push (addressed / broadcast / filtered sends; server-issued requests with their pending entries matched on (session, id)) and finds the wrong-session answer when entries are matched on the id alone; every edge of the state graph - including answers posted by the wrong session, repeated answers and cancellation - is executed on a real Streamable-HTTP and a real legacy SSE server with one recording raw peer per session; return values, the streams each nonce-tagged frame appeared on, the accepted answer and the pending-table size are compared with the edge labels; step logs are validated by TLC against TracePush.",
+   note="Trusted: TLC, the raw peers, the read-only VerifPendingServerRequests export. stdio has one session (isolation vacuous) and is not walked. The 30 s timer is replaced by cancelling the caller's context. Payload sizes are small in this check (large frames are covered by C09).",
+   technique="TLA+ model checking (TLC) + edge-cover walk on real servers + TLC trace validation"),
 }
 NA = {
  "C20": "data-race freedom is a statement about individual memory accesses under the Go memory model; an abstract state-machine specification has no notion of them (see DESIGN.md §6)",
